@@ -8,7 +8,8 @@ Go ↔ Lean
                                             order-preserving injection, see Oracle/C14.lean)
   Partition{Topic, ID, Leader.Rack}      ↔ `Part{topic, id, zone}`
   findPartitions                         ↔ `findPartitions`
-  findMembersByTopic (one map key)       ↔ `findMembersByTopic ms t` = `sortById (appendByTopic t ms)`
+  findMembersByTopic (one map key)       ↔ `findMembersByTopic ms t` = `sortById (appendByTopic t ms)` (a topic a member
+                                            lists twice counts once: `topicListedBefore` ↔ `firstListings`)
                                             (`sort.Slice` by ID, modelled as insertion sort; for distinct ids
                                             every sort gives the same list, for equal ids the result of the
                                             balancers does not depend on their relative order because the output
@@ -38,11 +39,17 @@ def findPartitions (t : Nat) : List Part → List Int
   | [] => []
   | p :: ps => if p.topic = t then p.id :: findPartitions t ps else findPartitions t ps
 
-/-- first loop of `findMembersByTopic`, the slice stored under key `t`: one copy of the member per occurrence
-of `t` in its topic list, in listing order -/
+/-- the entries of a member's topic list that count: `Topics[i]` unless `topicListedBefore(Topics, i)`, i.e. unless it
+already occurs in `Topics[:i]` (`pre` = the part of the list already walked over) -/
+def firstListings : List Nat → List Nat → List Nat
+  | _, [] => []
+  | pre, x :: xs => if x ∈ pre then firstListings (pre ++ [x]) xs else x :: firstListings (pre ++ [x]) xs
+
+/-- first loop of `findMembersByTopic` (and of `RackAffinityGroupBalancer.AssignGroups`), the slice stored under key
+`t`: the member is appended once per *first* listing of `t` in its topic list, in listing order -/
 def appendByTopic (t : Nat) : List Member → List Member
   | [] => []
-  | m :: ms => (m.topics.filter (· == t)).map (fun _ => m) ++ appendByTopic t ms
+  | m :: ms => ((firstListings [] m.topics).filter (· == t)).map (fun _ => m) ++ appendByTopic t ms
 
 def insertById (m : Member) : List Member → List Member
   | [] => [m]
